@@ -22,7 +22,15 @@
         `NativeBalanced ld` (C05), `NativeKeepsModstack ld` (C10), `NativeKeepsModules ld` (C11),
         `NativeClean ld`, `NativeKeepsSecure ld` (C09 evaluator level), `NativeRespects ld N` for every `N ∋ {}` (C20),
         no host failure (the hypothesis of C13 `no_host_escape`-style theorems),
-  and the instances for `sessionLoader …` and `libLoader …`.
+        `NativeGrows ld` (C10 sessions), `NativeKeepsFrames ld` (C11 bindings).
+  Two hypotheses do NOT follow from purity (a pure interpretation may read a position stored in an argument, or a
+  ghost counter: counterexamples in section 4b); they follow from the stronger, structural
+  `DataSem sem` : `sem name args s = finish name (res name (flatArgs args) (contLen s)) s` — the result is computed
+        from the position-free view of the arguments and the lengths of the containers on the heap
+        (`driverNativeSem_data`, by construction; `DataSem.pure`):
+        `NativeSim ld` (C14 evaluator: position erasure), `NativeGhostFree ld` (C10 sessions).
+  Instances for `sessionLoader …` and `libLoader …` (`AllNativeHyps`, eleven hypotheses), and C14 end to end
+  (`interpret_layout_irrelevant`) for both loaders.
 -/
 import CklVerif.Driver.NativeSem
 import CklVerif.Driver.EvalCmd
@@ -31,6 +39,10 @@ import CklVerif.Lemmas.C10Modstack
 import CklVerif.Lemmas.C11Modules
 import CklVerif.Proofs.C09Eval
 import CklVerif.Proofs.C20Eval
+import CklVerif.Lemmas.C10SessMutual
+import CklVerif.Lemmas.C10SessGhostMutual
+import CklVerif.Lemmas.C11BindFMain
+import CklVerif.Proofs.C14EndToEnd
 namespace Ckl.DN
 open Ckl
 
@@ -364,12 +376,189 @@ theorem no_host_of_pure (h : PureSem ld.nativeSem) (name : String) (args : List 
   obtain ⟨_, w, hw⟩ := hp
   cases hw
 
+/-- C10 (sessions): nothing is lost from the frames and the heap -/
+theorem HeapExt.grow {s s' : State} (h : HeapExt s s') : C10S.Grow s s' := by
+  induction h with
+  | refl => exact C10S.Grow.of_eq rfl rfl
+  | alloc _ _ ih => exact ih.trans (C10S.Grow.alloc _ _)
+
+theorem nativeGrows_of_pure (h : PureSem ld.nativeSem) : C10S.NativeGrows ld := by
+  intro name args s
+  have hp := h name args s
+  cases ho : ld.nativeSem name args s with
+  | ok v s' => rw [ho] at hp; exact hp.1.grow
+  | err v m p t s' => rw [ho] at hp; show C10S.Grow s s'; rw [hp.1]; exact C10S.Grow.of_eq rfl rfl
+  | fail f s' => rw [ho] at hp; show C10S.Grow s s'; rw [hp.1]; exact C10S.Grow.of_eq rfl rfl
+
+/-- C11 (bindings): frames are neither dropped nor re-parented, the heap does not shrink -/
+theorem HeapExt.fext {s s' : State} (h : HeapExt s s') : C11B.FExt s s' := by
+  induction h with
+  | refl => exact C11B.FExt.refl s
+  | alloc _ _ ih => exact ih.trans (C11B.fext_alloc _ _)
+
+theorem nativeKeepsFrames_of_pure (h : PureSem ld.nativeSem) : C11B.NativeKeepsFrames ld := by
+  intro name args s
+  have hp := h name args s
+  cases ho : ld.nativeSem name args s with
+  | ok v s' => rw [ho] at hp; exact hp.1.fext
+  | err v m p t s' => rw [ho] at hp; show C11B.FExt s s'; rw [hp.1]; exact C11B.FExt.refl s
+  | fail f s' => rw [ho] at hp; show C11B.FExt s s'; rw [hp.1]; exact C11B.FExt.refl s
+
+/-! ### 4b. hypotheses that purity alone does NOT give: position erasure (C14) and ghost-freeness (C10 sessions)
+
+  A pure interpretation may still LOOK at a position stored in an argument (`break` / `continue` / `return` values,
+  nodes) or at the ghost counters of the state and return, say, an int computed from it (the two examples at the end
+  of this section).  What the driver's interpretation satisfies is stronger than `PureSem`:
+
+  `DataSem sem` : `sem name args s = finish name (res name (flatArgs args) (contLen s)) s` for some function `res` —
+                  the result is computed from the POSITION-FREE view of the arguments (`flat`: control values and
+                  nodes reduced to their kind) and from the lengths of the containers on the heap, nothing else. -/
+
+def DataSem (sem : String → List (String × RVal) → State → Out RVal) : Prop :=
+  ∃ res : String → List (String × RVal) → (Nat → Option Nat) → NRes,
+    ∀ name args s, sem name args s = finish name (res name (flatArgs args) (contLen s)) s
+
+/-- **driverNativeSem_data.**  By construction. -/
+theorem driverNativeSem_data : DataSem driverNativeSem := ⟨nativeResL, fun _ _ _ => rfl⟩
+
+theorem DataSem.pure {sem} (h : DataSem sem) : PureSem sem := by
+  obtain ⟨res, hres⟩ := h
+  intro name args s
+  rw [hres]
+  exact finish_pure name _ s
+
+open C14E in
+/-- similar values have the same position-free view -/
+theorem flat_congr {v v' : RVal} (h : ers v = ers v') : flat v = flat v' := by
+  have h' : eraseV v = eraseV v' := h
+  cases v <;> cases v' <;> simp_all [eraseV, flat]
+
+open C14E in
+theorem flatArgs_congr : ∀ {b b' : List (String × RVal)}, ers b = ers b' → flatArgs b = flatArgs b'
+  | [], [], _ => rfl
+  | [], _ :: _, h => by cases h
+  | _ :: _, [], h => by cases h
+  | (k, v) :: b, (k', v') :: b', h => by
+    have h' : (ers (k, v)) :: ers b = (ers (k', v')) :: ers b' := h
+    injection h' with h1 h2
+    have hk : k = k' := congrArg Prod.fst h1
+    have hv : ers v = ers v' := congrArg Prod.snd h1
+    show (k, flat v) :: flatArgs b = (k', flat v') :: flatArgs b'
+    rw [hk, flat_congr hv, flatArgs_congr h2]
+
+open C14E in
+/-- the lengths of the containers survive erasure -/
+theorem contLen_ers (s : State) : contLen (ers s) = contLen s := by
+  funext a
+  unfold contLen
+  rw [← cell_ers]
+  cases s.cell a with
+  | none => rfl
+  | some c => cases c <;> simp [ers, eraseC]
+
+open C14E in
+theorem contLen_congr {s s' : State} (h : ers s = ers s') : contLen s = contLen s' := by
+  rw [← contLen_ers s, h, contLen_ers]
+
+open C14E in
+theorem allocStrss_resp (xss : List (List (List Char))) : Resp (allocStrss xss) (allocStrss xss) := by
+  induction xss with
+  | nil => exact Resp.pure rfl
+  | cons p ps ih =>
+    show Resp (newList (p.map RVal.str) >>= fun r => allocStrss ps >>= fun rs => pure (r :: rs))
+      (newList (p.map RVal.str) >>= fun r => allocStrss ps >>= fun rs => pure (r :: rs))
+    refine Resp.bind (newList_resp rfl) (fun r r' hr => Resp.bind ih (fun rs rs' hrs => Resp.pure ?_))
+    show ers r :: ers rs = ers r' :: ers rs'
+    rw [hr, hrs]
+
+open C14E in
+/-- the step from result to outcome respects similarity of states -/
+theorem finish_resp (name : String) (r : NRes) : Resp (finish name r) (finish name r) := by
+  cases r with
+  | val v =>
+    show Resp (if plainB v = true then pure v else unsupported ("native " ++ name)) (if plainB v = true then pure v else unsupported ("native " ++ name))
+    split
+    · exact Resp.pure rfl
+    · exact Resp.unsupported
+  | strs xs => exact newList_resp rfl
+  | strss xss =>
+    show Resp (allocStrss xss >>= fun inner => newList inner) (allocStrss xss >>= fun inner => newList inner)
+    exact Resp.bind (allocStrss_resp xss) (fun a a' h => newList_resp h)
+  | err msg => exact Resp.throwE rfl
+  | abstain => exact Resp.unsupported
+
+/-- C14 (evaluator): similar arguments and similar states give similar outcomes -/
+theorem nativeSim_of_data (h : DataSem ld.nativeSem) : C14E.NativeSim ld := by
+  obtain ⟨res, hres⟩ := h
+  intro name b b' hb
+  constructor
+  intro s s' hs
+  rw [hres name b s, hres name b' s', flatArgs_congr hb, contLen_congr hs]
+  exact (finish_resp name _).run s s' hs
+
+theorem allocStrss_r2 (xss : List (List (List Char))) : C10S.GI (allocStrss xss) := by
+  induction xss with
+  | nil => exact C10S.R2.pure _
+  | cons p ps ih =>
+    show C10S.R2 (newList (p.map RVal.str) >>= fun r => allocStrss ps >>= fun rs => pure (r :: rs))
+      (newList (p.map RVal.str) >>= fun r => allocStrss ps >>= fun rs => pure (r :: rs))
+    exact C10S.R2.bind (C10S.R2.newList _) (fun r => C10S.R2.bind ih (fun rs => C10S.R2.pure _))
+
+/-- the step from result to outcome neither reads nor writes the ghost counters -/
+theorem finish_r2 (name : String) (r : NRes) : C10S.GI (finish name r) := by
+  cases r with
+  | val v =>
+    show C10S.R2 (if plainB v = true then pure v else unsupported ("native " ++ name)) (if plainB v = true then pure v else unsupported ("native " ++ name))
+    split
+    · exact C10S.R2.pure _
+    · exact C10S.R2.unsupported _
+  | strs xs => exact C10S.R2.newList _
+  | strss xss =>
+    show C10S.R2 (allocStrss xss >>= fun inner => newList inner) (allocStrss xss >>= fun inner => newList inner)
+    exact C10S.R2.bind (allocStrss_r2 xss) (fun a => C10S.R2.newList a)
+  | err msg => exact C10S.R2.throwE _ _
+  | abstain => exact C10S.R2.unsupported _
+
+/-- C10 (sessions): the ghost counters are neither read nor written -/
+theorem nativeGhostFree_of_data (h : DataSem ld.nativeSem) : C10S.NativeGhostFree ld := by
+  obtain ⟨res, hres⟩ := h
+  intro name args
+  refine ⟨fun s s' hs => ?_⟩
+  rw [hres name args s, hres name args s']
+  have hc : contLen s' = contLen s := by rw [C10S.eq_wg_of_er hs]; rfl
+  rw [hc]
+  exact (finish_r2 name _).run s s' hs
+
+/-- purity is not enough for ghost-freeness: a strictly pure interpretation that reads a ghost counter -/
+example : StrictPureSem (fun _ _ s => .ok (.int s.ghost.enter.length) s) ∧
+    ¬ C10S.NativeGhostFree { nativeSem := fun _ _ s => .ok (.int s.ghost.enter.length) s } := by
+  refine ⟨fun _ _ _ => ⟨rfl, trivial⟩, fun h => ?_⟩
+  have := (h "x" []).run {} { ghost := { enter := [({}, 1)] } } rfl
+  simp [C10S.erO] at this
+
+/-- purity is not enough for position erasure: a strictly pure interpretation that reads the position of a `break` -/
+def posReader : String → List (String × RVal) → State → Out RVal :=
+  fun _ args s => match args with
+    | [(_, .brk p)] => .ok (.int p.line) s
+    | _ => .ok .null s
+
+example : StrictPureSem posReader ∧ ¬ C14E.NativeSim { nativeSem := posReader } := by
+  refine ⟨fun _ args s => ?_, fun h => ?_⟩
+  · unfold posReader; split <;> exact ⟨rfl, trivial⟩
+  · have := (h "x" [("a", .brk { line := 1 })] [("a", .brk { line := 2 })] rfl).run {} {} rfl
+    simp [posReader, C14E.ers, C14E.eraseV] at this
+
 /-! ### 5. the driver's loaders -/
 
 theorem sessionLoader_pure (ms eff known realBase) : PureSem (sessionLoader ms eff known realBase).nativeSem :=
   driverNativeSem_pure
 
 theorem libLoader_pure (ms eff known) : PureSem (libLoader ms eff known).nativeSem := driverNativeSem_pure
+
+theorem sessionLoader_data (ms eff known realBase) : DataSem (sessionLoader ms eff known realBase).nativeSem :=
+  driverNativeSem_data
+
+theorem libLoader_data (ms eff known) : DataSem (libLoader ms eff known).nativeSem := driverNativeSem_data
 
 /-- every hypothesis at once, for a loader that uses the driver's interpretation -/
 structure AllNativeHyps (ld : Loader) : Prop where
@@ -380,19 +569,49 @@ structure AllNativeHyps (ld : Loader) : Prop where
   secure : C09E.NativeKeepsSecure ld
   respects : ∀ N : Pos → Prop, N {} → C20E.NativeRespects ld N
   noHost : ∀ name args s k s', ld.nativeSem name args s ≠ .fail (.host k) s'
+  grows : C10S.NativeGrows ld
+  keepsFrames : C11B.NativeKeepsFrames ld
+  ghostFree : C10S.NativeGhostFree ld
+  sim : C14E.NativeSim ld
 
-theorem allNativeHyps_of_pure (h : PureSem ld.nativeSem) : AllNativeHyps ld :=
+/-- the hypotheses that follow from purity alone -/
+theorem pureNativeHyps (h : PureSem ld.nativeSem) :
+    C05.NativeBalanced ld ∧ C10.NativeKeepsModstack ld ∧ C11.NativeKeepsModules ld ∧ C09E.NativeClean ld ∧
+    C09E.NativeKeepsSecure ld ∧ (∀ N : Pos → Prop, N {} → C20E.NativeRespects ld N) ∧
+    (∀ name args s k s', ld.nativeSem name args s ≠ .fail (.host k) s') ∧ C10S.NativeGrows ld ∧ C11B.NativeKeepsFrames ld :=
   ⟨nativeBalanced_of_pure h, nativeKeepsModstack_of_pure h, nativeKeepsModules_of_pure h, nativeClean_of_pure h,
-   nativeKeepsSecure_of_pure h, nativeRespects_of_pure h, no_host_of_pure h⟩
+   nativeKeepsSecure_of_pure h, nativeRespects_of_pure h, no_host_of_pure h, nativeGrows_of_pure h,
+   nativeKeepsFrames_of_pure h⟩
+
+/-- all eleven, for an interpretation of the form `DataSem` -/
+theorem allNativeHyps_of_data (h : DataSem ld.nativeSem) : AllNativeHyps ld :=
+  ⟨nativeBalanced_of_pure h.pure, nativeKeepsModstack_of_pure h.pure, nativeKeepsModules_of_pure h.pure,
+   nativeClean_of_pure h.pure, nativeKeepsSecure_of_pure h.pure, nativeRespects_of_pure h.pure, no_host_of_pure h.pure,
+   nativeGrows_of_pure h.pure, nativeKeepsFrames_of_pure h.pure, nativeGhostFree_of_data h, nativeSim_of_data h⟩
 
 /-- **sessionLoader_hyps.**  The loader of the driver's `session` requests meets every hypothesis on `nativeSem` -/
 theorem sessionLoader_hyps (ms eff known realBase) : AllNativeHyps (sessionLoader ms eff known realBase) :=
-  allNativeHyps_of_pure (sessionLoader_pure ms eff known realBase)
+  allNativeHyps_of_data (sessionLoader_data ms eff known realBase)
 
 /-- **libLoader_hyps.**  The loader of the driver's `libsetup` / `libsession` requests (the repository's own library
     source on the real base environment) meets every hypothesis on `nativeSem` -/
 theorem libLoader_hyps (ms eff known) : AllNativeHyps (libLoader ms eff known) :=
-  allNativeHyps_of_pure (libLoader_pure ms eff known)
+  allNativeHyps_of_data (libLoader_data ms eff known)
+
+/-- **libLoader_layout_irrelevant.**  C14 end to end for the library sessions the driver runs: with the driver's
+    interpretation of the built-ins, inserting white space / line breaks / comments at a token boundary of a program
+    text changes nothing but positions -/
+theorem libLoader_layout_irrelevant (ms eff known) (fuel : Nat) (senv : EnvId) (file : String) (u w v : List Char)
+    {s s' : State} (hu : C14.AtBoundary file u) (hw : Lexer.Filler w) (hs : C14E.StateSim s s') :
+    C14X.OutSimX (C14X.interpretSource (libLoader ms eff known) fuel senv (u ++ w ++ v) file s)
+      (C14X.interpretSource (libLoader ms eff known) fuel senv (u ++ v) file s') :=
+  C14X.interpret_layout_irrelevant _ (libLoader_hyps ms eff known).sim fuel senv file u w v hu hw hs
+
+theorem sessionLoader_layout_irrelevant (ms eff known realBase) (fuel : Nat) (senv : EnvId) (file : String)
+    (u w v : List Char) {s s' : State} (hu : C14.AtBoundary file u) (hw : Lexer.Filler w) (hs : C14E.StateSim s s') :
+    C14X.OutSimX (C14X.interpretSource (sessionLoader ms eff known realBase) fuel senv (u ++ w ++ v) file s)
+      (C14X.interpretSource (sessionLoader ms eff known realBase) fuel senv (u ++ v) file s') :=
+  C14X.interpret_layout_irrelevant _ (sessionLoader_hyps ms eff known realBase).sim fuel senv file u w v hu hw hs
 
 /-! ### 6. non-vacuity and concrete behaviour -/
 
